@@ -1,5 +1,7 @@
 #!/bin/bash
-# run every claimed check once (tier $1, default quick) and print id, exit code, wall time
+# run every claimed check once (tier $1, default quick) and print id, exit code, wall time; the output and the replay
+# files of every run that does not exit 0 are kept under soak-out/<ID>-<seed>-<tier>/ (the next run of that check
+# clears replays/<ID>)
 cd "$(dirname "$0")/.."
 tier=${1:-quick}
 for id in $(./check --list); do
@@ -8,5 +10,8 @@ for id in $(./check --list); do
   t1=$(date +%s.%N)
   v=$(echo "$out" | grep -c '^VIOLATION')
   printf "%s rc=%d violations=%d %.1fs\n" $id $rc $v $(echo "$t1 - $t0" | bc)
-  if [ $rc -ne 0 ]; then echo "$out" | tail -15; fi
+  if [ $rc -ne 0 ]; then
+    echo "$out" | tail -15
+    d=soak-out/$id-${VERIF_SEED:-0}-$tier; mkdir -p $d; echo "$out" > $d/output.txt; cp -r replays/$id $d/ 2>/dev/null
+  fi
 done
